@@ -305,9 +305,11 @@ def export_slice(slize: Slice) -> vckt.Slice:
 
 
 def export_concat(concat: Concat) -> vckt.Concat:
-    """Export (potentially recursive) Signal Concatenations"""
+    """Export (potentially recursive) Signal Concatenations.
+    Hdl21 `Concat`s list their least-significant part first.
+    VLSIR, like the bus-ordering of its netlisters, lists the most-significant part first."""
     pconc = vckt.Concat()
-    for part in concat.parts:
+    for part in reversed(concat.parts):
         pconc.parts.append(export_connection_target(part))
     return pconc
 
